@@ -128,9 +128,11 @@ Proof.
   destruct (N.eqb_spec z x) as [->|Hzx]; cbn [In]; [split; [auto|intros [E|H]; [congruence|auto]]|rewrite IH; tauto].
 Qed.
 
-Lemma move_gen P par x target (m : M (option pres)) s g (Q : option pres -> pstate -> Prop) :
+Lemma move_gen {RT} P par x target (m : M RT) s g (Q : RT -> pstate -> Prop) :
   TI s g -> In x (kids g par) -> glive g target -> ~ desc g x target ->
   (forall t2 g2, TI (with_tree s t2) g2 -> shape_eq g g2 -> roots_iff g g2 -> kids g2 x = kids g x ->
+                 (forall S : N -> Prop, S x -> evolve S g g2) -> pframe (p_tree s) t2 ->
+                 (forall q, kids g2 q = (if q =? par then remove1 x (kids g par) else kids g q) ++ (if q =? target then [x] else [])) ->
                  wp P m (with_tree s t2) Q) ->
   wp P (detachM (Some par) (Some x) ;;; appendM (Some target) x ;;; m) s Q.
 Proof.
@@ -175,6 +177,16 @@ Proof.
         rewrite in_app_iff. cbn [In]. rewrite A. intuition congruence. }
       unfold groot. split; intros Hr q Hq; apply (Hr q); apply Hmem; exact Hq.
   - rewrite Hk2. apply N.eqb_neq in Hxt. rewrite Hxt, Hk1. apply N.eqb_neq in Hxp. rewrite Hxp. reflexivity.
+  - intros S HSx. constructor.
+    + unfold g2, g1. cbn [astep]. rewrite !set_kids_len. reflexivity.
+    + intros y (A & B). split; [|exact B]. unfold g2, g1 in A. cbn [astep] in A. rewrite !set_kids_len in A. exact A.
+    + intros y Hy _. unfold g2. cbn [astep]. apply glive_set_kids. apply Hshape1. exact Hy.
+    + intros q. exists (kids g1 q), (if q =? target then [x] else []). rewrite Hk2. split; [|split].
+      * destruct (q =? target) eqn:E; [apply N.eqb_eq in E; subst q; reflexivity|rewrite app_nil_r; reflexivity].
+      * rewrite Hk1. destruct (q =? par) eqn:E; [apply N.eqb_eq in E; subst q; apply sublist_remove1|apply sublist_refl].
+      * destruct (q =? target); constructor; auto.
+  - eapply pframe_trans; [exact Hpf1|exact Hpf2].
+  - intros q. rewrite Hk2, <- Hk1. destruct (q =? target) eqn:E; [apply N.eqb_eq in E; subst q; reflexivity|rewrite app_nil_r; reflexivity].
 Qed.
 
 (** ---- relocateNamedObjects ---- *)
@@ -347,7 +359,7 @@ Proof.
   { exfalso. destruct (Hok Hr) as (o' & Ho' & Hop'). assert (o' = oo) by congruence. subst o'. contradiction. }
   apply wp_bind, wp_get. rewrite (TI_ObjectAt _ _ _ H1 Hlp).
   eapply (move_gen True (o_parent oo) x targetObj _ s1 g); [exact H1|exact Hin|exact Htgt|exact Hinside|].
-  intros t2 g2 H2 S2 R2 Hk2.
+  intros t2 g2 H2 S2 R2 Hk2 _ _ _.
   pose proof (ti_R _ _ H2) as HR2.
   assert (Hl2 : glive g2 x) by (apply (shape_eq_glive _ _ _ S2); exact Hl).
   destruct (TI_live_get _ _ _ H2 Hl2) as (o2 & Ho2 & Hlo2).
